@@ -214,10 +214,12 @@ func Check(c *Case) (o core.Outcome) {
 	if !found {
 		b = budget(0)
 	}
-	// With default GC pacing the sampled heap (live objects plus not yet collected garbage) can
-	// reach about twice the peak live heap, so only a sample above 2.2 x budget + 32 MiB proves
-	// that the live heap exceeded the budget.
-	if resp.TotalAlloc > b && resp.PeakHeap > 2*b+b/5+(32<<20) {
+	// The worker runs each decode under a soft memory limit of (what the runtime holds at the
+	// start) + budget + 96 MiB (runtime/debug.SetMemoryLimit): the collector keeps the heap
+	// below that whenever the live data fits, so a sampled growth of heap objects above
+	// 1.125 x budget + 96 MiB shows live data beyond the budget rather than garbage awaiting
+	// collection. (Before the limit was introduced the criterion had to be 2.2 x budget.)
+	if resp.TotalAlloc > b && resp.PeakHeap > b+b/8+(96<<20) {
 		o.Fail = &core.Failure{Kind: "memory", Msg: fmt.Sprintf("peak heap growth %d MiB (allocated %d MiB in total) exceeds the budget 512 MiB + 64*S = %d MiB for a %d-byte input declaring S=%d", resp.PeakHeap>>20, resp.TotalAlloc>>20, b>>20, len(c.Input), s)}
 		return
 	}
@@ -1252,4 +1254,75 @@ func TestTilePartHeaders(t *testing.T) {
 		}
 	}
 	core.ExhaustiveDone("each tile-part header segment kind (COD COC QCD QCC RGN POC PLT PPT COM) inserted into each tile-part header of each JPEG 2000 pool stream, with and without Psot adjusted", int64(n))
+}
+
+// TestPacketGrammar: JPEG 2000 codestreams written from the header grammar whose single tile
+// consists of one syntactically valid packet header (ref/walk.WritePacketHeader) with hostile
+// field values - any pass count, Lblock raised by up to 70, lengths of all ones - followed by a
+// few bytes of data. "Few blocks, absurd lengths" aims at the arithmetic on announced lengths;
+// "thousands of blocks, each announcing 64 KiB" at what a decoder reserves before it looks at
+// how much data is there.
+func TestPacketGrammar(t *testing.T) {
+	be16 := func(v int) []byte { return []byte{byte(v >> 8), byte(v)} }
+	be32 := func(v int) []byte { return []byte{byte(v >> 24), byte(v >> 16), byte(v >> 8), byte(v)} }
+	g := rapid.Custom(func(t *rapid.T) *Case {
+		shape := rapid.SampledFrom([]string{"few", "few", "few", "many"}).Draw(t, "shape")
+		w, h, xcb, ycb := 8, 8, 2, 2
+		if shape == "many" {
+			d := rapid.SampledFrom([][2]int{{256, 256}, {512, 384}, {128, 64}}).Draw(t, "dims")
+			w, h = d[0], d[1]
+		} else {
+			w, h = rapid.IntRange(1, 16).Draw(t, "w"), rapid.IntRange(1, 16).Draw(t, "h")
+			xcb, ycb = rapid.IntRange(2, 4).Draw(t, "xcb"), rapid.IntRange(2, 4).Draw(t, "ycb")
+		}
+		nx, ny := (w+(1<<xcb)-1)>>xcb, (h+(1<<ycb)-1)>>ycb
+		style := rapid.SampledFrom([]int{0, 0, 4, 1, 5, 8, 0x40}).Draw(t, "style")
+		blocks := make([]walk.PacketBlock, nx*ny)
+		if shape == "many" {
+			inc := rapid.SampledFrom([]int{13, 13, 12, 29}).Draw(t, "inc")
+			passes := rapid.SampledFrom([]int{1, 1, 2, 3}).Draw(t, "passes")
+			for i := range blocks {
+				blocks[i] = walk.PacketBlock{Included: true, ZBP: 0, Passes: passes, LblockInc: inc, Len: ^uint64(0)}
+			}
+		} else {
+			for i := range blocks {
+				blocks[i] = walk.PacketBlock{Included: rapid.IntRange(0, 5).Draw(t, "incl") > 0, ZBP: rapid.SampledFrom([]int{0, 0, 1, 7, 30, 70}).Draw(t, "zbp"),
+					Passes:    rapid.SampledFrom([]int{1, 1, 2, 3, 5, 6, 36, 37, 164}).Draw(t, "passes"),
+					LblockInc: rapid.SampledFrom([]int{0, 0, 1, 5, 13, 29, 30, 50, 53, 58, 60, 61, 70}).Draw(t, "lbinc")}
+				if rapid.Bool().Draw(t, "ones") {
+					blocks[i].Len = ^uint64(0)
+				} else {
+					blocks[i].Len = rapid.Uint64().Draw(t, "len")
+				}
+			}
+		}
+		hdr := walk.WritePacketHeader(nx, ny, blocks)
+		body := append(hdr, rapid.SliceOfN(rapid.Byte(), 0, 24).Draw(t, "data")...)
+		nc := 1
+		var s []byte
+		s = append(s, 0xFF, 0x4F, 0xFF, 0x51)
+		s = append(s, be16(38+3*nc)...)
+		s = append(s, 0, 0)
+		s = append(append(append(append(s, be32(w)...), be32(h)...), be32(0)...), be32(0)...)
+		s = append(append(append(append(s, be32(w)...), be32(h)...), be32(0)...), be32(0)...)
+		s = append(s, be16(nc)...)
+		s = append(s, 7, 1, 1)
+		s = append(s, 0xFF, 0x52, 0, 12, 0, 0, 0, 1, 0, 0, byte(xcb-2), byte(ycb-2), byte(style), 1)
+		s = append(s, 0xFF, 0x5C, 0, 4, 0x40, 0x48)
+		s = append(s, 0xFF, 0x90, 0, 10, 0, 0)
+		s = append(s, be32(14+len(body))...)
+		s = append(s, 0, 1, 0xFF, 0x93)
+		s = append(s, body...)
+		s = append(s, 0xFF, 0xD9)
+		if len(s) > maxInput {
+			s = s[:maxInput]
+		}
+		entry := rapid.SampledFrom([]string{"j2k", "j2k", "codec:90", "j2k-ht"}).Draw(t, "entry")
+		c := &Case{Entry: entry, Parent: "packet-grammar", Muts: []string{fmt.Sprintf("packets:%s,%dx%d,cb%dx%d,style%d,%dB", shape, w, h, xcb, ycb, style, len(hdr))}, Input: s}
+		if entry == "codec:90" {
+			c.Info = &dec.Info{W: w, H: h, BA: 8, BS: 8, SPP: 1}
+		}
+		return c
+	})
+	core.RunSharded(t, ID, 320, 12000, g, Check)
 }
